@@ -37,7 +37,7 @@ func init() {
 		Rule: "one run = histories of json calls (Marshal, Encoder.Encode, Unmarshal, Parse with a ParseFlags subset, Decoder.Decode×k over a simulated reader, Tokenizer pass, scribble over an input, recheck) for 1..3 simulated goroutines plus pool policy and schedule, from the tape; non-trivial = at least one fault fired (an input was scribbled while results from it were live, a pooled buffer was reused after poison, the Decoder refilled its buffer between two results, or a context switch happened); distinct = distinct hash of (operations, documents, flags, schedule trace)",
 		FaultKinds: []string{"scribble-input-with-live-results", "tokenizer-reset-and-reused", "destination-decoded-into-again", "pooled-buffer-poisoned-and-reused", "decoder-refill-between-results", "decoder-reader-chunked", "context-switch", "zero-copy-flags", "loose-capacity-input",
 			"pool-policy:lifo", "pool-policy:fifo", "pool-policy:random", "pool-policy:never-reuse", "pool-policy:drop-on-put"},
-		ProbeNames: []string{"ops", "inputs-checked-unchanged", "result-leaves-tracked", "leaves-aliasing-input(allowed)", "leaves-rechecked-after-scribble", "marshal-results-rechecked", "decoder-values", "decoder-zero-copy-values-checked-until-next-decode", "encoder-inputs-checked-unchanged", "tokenizer-strings", "writer-buffers-checked-stable-during-write", "decoder-leaves-in-read-buffer(allowed)", "tokenizer-strings-unescaped(own memory, tracked)", "utility-calls"},
+		ProbeNames: []string{"ops", "inputs-checked-unchanged", "result-leaves-tracked", "leaves-aliasing-input(allowed)", "leaves-rechecked-after-scribble", "marshal-results-rechecked", "decoder-values", "decoder-zero-copy-values-checked-until-next-decode", "encoder-inputs-checked-unchanged", "tokenizer-strings", "writer-buffers-checked-stable-during-write", "decoder-leaves-in-read-buffer(allowed)", "tokenizer-strings-unescaped(own memory, tracked)", "utility-calls", "decoded-values-snapshotted"},
 		Real:       []string{"json.Marshal/Encoder/Unmarshal/Parse/Decoder/Tokenizer compiled from /repo's working tree with sync redirected to the shim"},
 		Model:      []string{"sync.Pool (simulated; poison on put, LIFO reuse by default)", "scheduler", "io.Reader (simio.Reader)", "caller buffers (simio.GuardedBuf: canaries + shadow copy)"},
 		Assumptions: []string{
@@ -139,8 +139,80 @@ type leaf struct {
 	path    string
 }
 
+type c10Snap struct {
+	op       int
+	x, clone reflect.Value
+}
+
+// deepClone copies a decoded value: pointers, interfaces, slices, maps, arrays and
+// the exported fields of structs are duplicated; unexported fields are carried
+// over by assignment.
+func deepClone(v reflect.Value, depth int) reflect.Value {
+	if !v.IsValid() || depth > 32 {
+		return v
+	}
+	switch v.Kind() {
+	case reflect.Ptr:
+		if v.IsNil() {
+			return v
+		}
+		p := reflect.New(v.Type().Elem())
+		p.Elem().Set(deepClone(v.Elem(), depth+1))
+		return p
+	case reflect.Interface:
+		if v.IsNil() {
+			return v
+		}
+		c := reflect.New(v.Type()).Elem()
+		c.Set(deepClone(v.Elem(), depth+1))
+		return c
+	case reflect.Slice:
+		if v.IsNil() {
+			return v
+		}
+		c := reflect.MakeSlice(v.Type(), v.Len(), v.Len())
+		for i := 0; i < v.Len(); i++ {
+			c.Index(i).Set(deepClone(v.Index(i), depth+1))
+		}
+		return c
+	case reflect.Array:
+		c := reflect.New(v.Type()).Elem()
+		for i := 0; i < v.Len(); i++ {
+			c.Index(i).Set(deepClone(v.Index(i), depth+1))
+		}
+		return c
+	case reflect.Map:
+		if v.IsNil() {
+			return v
+		}
+		c := reflect.MakeMapWithSize(v.Type(), v.Len())
+		it := v.MapRange()
+		for it.Next() {
+			c.SetMapIndex(deepClone(it.Key(), depth+1), deepClone(it.Value(), depth+1))
+		}
+		return c
+	case reflect.Struct:
+		c := reflect.New(v.Type()).Elem()
+		c.Set(v)
+		for i := 0; i < v.NumField(); i++ {
+			if v.Type().Field(i).PkgPath == "" {
+				c.Field(i).Set(deepClone(v.Field(i), depth+1))
+			}
+		}
+		return c
+	case reflect.String:
+		// a private copy of the bytes: a string that aliases memory the library
+		// rewrites later must show as a difference
+		c := reflect.New(v.Type()).Elem()
+		c.SetString(string(append([]byte(nil), v.String()...)))
+		return c
+	}
+	return v
+}
+
 type c10TaskRes struct {
 	fail, failKey string
+	snaps         []c10Snap
 	leaves        []leaf
 	probes        map[string]int64
 	faults        map[string]int64
@@ -224,7 +296,7 @@ type C10OwnBytes struct{ Doc []byte }
 func (c C10OwnBytes) MarshalJSON() ([]byte, error) { return c.Doc, nil }
 
 var c10LeafTypes = []reflect.Type{reflect.TypeOf(json.RawMessage(nil)), reflect.TypeOf(""), reflect.TypeOf(json.Number("")), reflect.TypeOf([]byte(nil)),
-	reflect.TypeOf((*any)(nil)).Elem(), reflect.TypeOf(map[string]string(nil)), reflect.TypeOf([]string(nil)), reflect.TypeOf([]json.RawMessage(nil)), reflect.TypeOf(map[string]json.RawMessage(nil))}
+	reflect.TypeOf((*any)(nil)).Elem(), reflect.TypeOf(map[string]string(nil)), reflect.TypeOf([]string(nil)), reflect.TypeOf([]json.RawMessage(nil)), reflect.TypeOf(map[string]json.RawMessage(nil)), reflect.TypeOf(map[string][]string(nil))}
 
 func c10Types(t *tape.Tape) reflect.Type {
 	if t.Chance(1, 5) {
@@ -271,6 +343,17 @@ func c10DocFrom(t *tape.Tape, rt reflect.Type, perturb bool, from reflect.Value)
 	v := from
 	if !v.IsValid() {
 		v = vg.New(rt)
+		if m, ok := v.Interface().(*map[string][]string); ok && t.Bool() {
+			// lists whose lengths sit on the growth steps of a scratch slice
+			*m = map[string][]string{}
+			for i, n := 0, t.Range(1, 3); i < n; i++ {
+				l := make([]string, []int{9, 10, 11, 20, 40}[t.Intn(5)])
+				for j := range l {
+					l[j] = fmt.Sprintf("s%d-%d", i, j)
+				}
+				(*m)[fmt.Sprintf("k%d", i)] = l
+			}
+		}
 	}
 	if d, ok := v.Interface().(*C10Doc); ok {
 		if t.Bool() {
@@ -718,6 +801,26 @@ func c10Exec(task int, ops []*c10Op, tr *c10TaskRes) {
 			if err == nil {
 				tr.track(j, op, x, c10OpNames[op.kind]+"(x)", false)
 			}
+			// the decoded value as a whole keeps its contents too (slices and maps
+			// the library built included), as long as no call that was given this
+			// destination had a zero-copy flag
+			copyMode := err == nil
+			for _, u := range *op.users {
+				if u.flags&json.ZeroCopy != 0 {
+					copyMode = false
+				}
+			}
+			kept := tr.snaps[:0]
+			for _, sn := range tr.snaps {
+				if sn.x.Pointer() != x.Pointer() {
+					kept = append(kept, sn)
+				}
+			}
+			tr.snaps = kept
+			if copyMode {
+				tr.snaps = append(tr.snaps, c10Snap{op: j, x: x, clone: deepClone(x, 0)})
+				tr.probes["decoded-values-snapshotted"]++
+			}
 		case c10Tokenizer:
 			in := op.buf.Body()
 			// one Tokenizer per task is reused through Reset for some passes: what
@@ -914,6 +1017,14 @@ func c10Exec(task int, ops []*c10Op, tr *c10TaskRes) {
 		}
 		if tr.fail == "" {
 			tr.encoderInputsIntact(ops, j, "after "+c10OpNames[op.kind])
+		}
+		if tr.fail == "" {
+			for _, sn := range tr.snaps {
+				if !reflect.DeepEqual(sn.x.Interface(), sn.clone.Interface()) {
+					tr.failf("result-changed:decoded-value", "after %s: the value decoded by op #%d (no zero-copy flag on any call that was given this destination) is no longer what it was when the call returned: now %s, then %s", c10OpNames[op.kind], sn.op, clipStr(fmt.Sprintf("%+v", sn.x.Elem().Interface()), 300), clipStr(fmt.Sprintf("%+v", sn.clone.Elem().Interface()), 300))
+					break
+				}
+			}
 		}
 		if tr.fail != "" {
 			return
